@@ -105,7 +105,8 @@ class Sequencer(object):
 
     def notify_listeners(self, msg_type, params):
         """Send a message to all the observers."""
-        for c in self.listeners:
+        # (a listener may detach itself while it is being notified)
+        for c in list(self.listeners):
             c.notify(msg_type, params)
 
     def set_instrument(self, channel, instr, bank=0):
